@@ -338,14 +338,32 @@ def _twogrid(rec, case):
     rec.case(c, nontrivial=True)
     sig = {'route': 'twogrid', 'u0': u0kind}
     u0copy = None if u0 is None else np.array(u0, dtype=float)
+    # the smoother is a user-supplied callable: wrap it to see the iterate after every smoothing step
+    trace = []
+    def sm_rec(A_, u_, f_):
+        sm(A_, u_, f_); trace.append(np.array(u_, dtype=float))
     with contextlib.redirect_stdout(io.StringIO()):
-        ok, u = guarded(rec, c, sig, solvers.twogrid, A, f, P, sm, u0=u0, tol=tol, maxiter=500)
+        ok, u = guarded(rec, c, sig, solvers.twogrid, A, f, P, sm_rec, u0=u0, tol=tol, maxiter=500)
     if not ok: return
     rec.count('oracle:twogrid')
     res0 = np.linalg.norm(f - A @ (np.zeros(n) if u0copy is None else u0copy))
+    if not trace:
+        rec.violation(dict(sig, oracle='at least one smoothing step is applied'), c, {}); return
+    # the driver stops when the residual after smoothing (before the last coarse-grid correction) is below tol * initial residual;
+    # the returned vector is that iterate plus its coarse-grid correction (which lowers the energy-norm error, not necessarily the
+    # Euclidean residual)
+    upre = trace[-1]
+    rpre = f - A @ upre
+    if not (np.linalg.norm(rpre) <= tol * res0 * (1 + 1e-9) + 1e-14 * np.linalg.norm(f)):
+        rec.violation(dict(sig, oracle='stops only when the smoothed residual is below tol times the initial residual'), c,
+                      {'res/res0': float(np.linalg.norm(rpre) / res0), 'tol': tol, 'smoothing_steps_seen': len(trace)})
+    Ad = A.toarray(); Pd = P.toarray()
+    want = upre + Pd @ np.linalg.solve(Pd.T @ Ad @ Pd, Pd.T @ rpre)
+    rec.check_close('twogrid_final_correction', float(np.abs(np.asarray(u) - want).max()), 1e-10 * np.linalg.cond(Ad) * (np.abs(want).max() + 1) * 1e-3 + 1e-12, sig, c)
     res = np.linalg.norm(f - A @ u)
-    # the driver tests the residual before the last coarse correction; one more cycle can only help on SPD
-    if not (res <= tol * res0 * 1.0000001 + 1e-14 * np.linalg.norm(f)):
-        rec.violation(dict(sig, oracle='residual reduction reached on an SPD problem'), c, {'res/res0': float(res / res0), 'tol': tol})
+    xs_ = np.linalg.solve(Ad, f)
+    e_pre = upre - xs_; e_fin = np.asarray(u) - xs_
+    if not (e_fin @ Ad @ e_fin <= (e_pre @ Ad @ e_pre) * (1 + 1e-8) + 1e-20):
+        rec.violation(dict(sig, oracle='the coarse-grid correction does not increase the energy-norm error'), c, {})
     if isinstance(u0, np.ndarray) and not np.array_equal(u0, u0copy):
         rec.violation(dict(sig, oracle='starting vector not modified'), c, {})
